@@ -267,7 +267,7 @@ func Exec(c hx.Case) hx.Result {
 		if long && strings.HasPrefix(op, "put ") {
 			watch = func(_ time.Duration, f func()) bool { f(); return true }
 		}
-		finished := watch(5*time.Second, func() {
+		finished := watch(60*time.Second, func() {
 			kind = hx.Try(func() {
 				if len(f) == 0 {
 					return
@@ -727,7 +727,7 @@ func Exec(c hx.Case) hx.Result {
 		})
 		if !finished {
 			res.Outs = append(res.Outs, "hang")
-			bad(i, "", "%s did not return within 5s", op)
+			bad(i, "", "%s did not return within 60s", op)
 			break
 		}
 		if kind != "" {
